@@ -129,9 +129,10 @@ fn malformed(rep: &Reporter) {
 }
 
 fn acceptance_grid(rep: &Reporter) {
-    let objs = [-3.0, 0.0, -0.0, 1e-20, 1.0, 1.0 + 1e-9, 2.0, 50.0, f64::MAX, f64::INFINITY];
+    let objs = [-3.0, 0.0, -0.0, 1e-20, 5e-18, 2e-17, 1.0, 1.0 + 1e-9, 2.0, 50.0, f64::MAX, f64::INFINITY];
     // incl. temperatures the cooling schedule reaches late in a run (alpha = 0 gives exactly 0)
-    let temps = [0.0, 1e-300, 1e-24, 1e-12, 1e-3, 0.1, 1.0, 10.0, 1e6, 1e12, 1e300];
+    // (1e-17 and 1e-20: below f64::EPSILON, with margins of the same order among the objective values)
+    let temps = [0.0, 1e-300, 1e-24, 1e-20, 1e-17, 1e-12, 1e-3, 0.1, 1.0, 10.0, 1e6, 1e12, 1e300];
     let n = rep.tier.pick(5_000u64, 200_000u64);
     let band = ((2.0f64 / 1e-10).ln() / (2.0 * n as f64)).sqrt();
     rep.set("seeds_per_cell", json!(n));
